@@ -677,7 +677,8 @@ func isNewMaster(cand, exist *spb.Uint128) (bool, bool, error) {
 	if cand.High > exist.High {
 		return true, false, nil
 	}
-	if cand.Low > exist.Low {
+	// The low 64 bits are only significant when the high 64 bits are equal.
+	if cand.High == exist.High && cand.Low > exist.Low {
 		return true, false, nil
 	}
 
